@@ -91,7 +91,7 @@ def main():
              "kind_free_text": "Rust binary: seeded, 16-way sharded proptest TestRunners (fixed work per tier, shrinking, replay files, known-findings protocol), generators for values/kinds/paths/programs/stdlib calls, reference models"},
         ],
         "checks": checks,
-        "notes": "All checks are generated-input search against explicit oracles (proptest; libFuzzer for byte-level thorough tiers). Exit 0 = held on everything explored (KNOWN-FINDING lines possible), 1 = VIOLATION line(s), 2 = harness could not conclude. VERIF_SEED selects the PRNG stream.",
+        "notes": "All checks are generated-input search against explicit oracles (proptest runners: seeded, 16-way sharded, shrinking to a replay file; exhaustive enumeration for finite grids; no libFuzzer target is registered, see DESIGN.md 8.2). Exit 0 = held on everything explored (KNOWN-FINDING lines possible), 1 = VIOLATION line(s), 2 = harness could not conclude. VERIF_SEED selects the PRNG stream.",
         "not_applicable": na,
     }
     json.dump(m, open('/verif/MANIFEST.json', 'w'), indent=1)
